@@ -4,7 +4,7 @@ namespace Driver
 
 def clsOfName (s : String) : Option NumClass :=
   if s == "neg" then some .neg else if s == "zero" then some .zero else if s == "pos" then some .pos
-  else if s == "inf" then some .inf else if s == "nan" then some .nan else none
+  else if s == "inf" then some .inf else if s == "nan" then some .nan else if s == "word" then some .word else none
 
 def outcomeName : Outcome → String
   | .usage => "usage" | .diag => "diag" | .report => "report" | .crash e => "crash:" ++ e.name | .nonfinite => "nonfinite"
